@@ -72,6 +72,8 @@ pub struct InFlight {
     pub bytes: Vec<u8>,
     /// origin of a genuine datagram (sending node, its instance, kind of message); (0, 0, "forged") for fabricated bytes
     pub orig: (u16, u32, &'static str),
+    /// address the datagram was originally sent to (as a trace address; 0 = unknown / fabricated)
+    pub odst: u32,
 }
 
 pub struct Faults {
@@ -503,7 +505,7 @@ impl<P: Protocol> Sim<P> {
                 0
             };
             self.seq += 1;
-            self.queue.push(InFlight { due: self.now + delay, seq: self.seq, src, to, id: d.id, bytes: d.bytes.clone(), orig: (d.from, d.inc, d.tag) });
+            self.queue.push(InFlight { due: self.now + delay, seq: self.seq, src, to, id: d.id, bytes: d.bytes.clone(), orig: (d.from, d.inc, d.tag), odst: tport(&d.to) });
         }
     }
 
@@ -512,30 +514,30 @@ impl<P: Protocol> Sim<P> {
         self.seq += 1;
         // a verbatim copy of something a node really sent keeps its origin; anything else is fabricated
         let orig = if self.trace.is_some() {
-            self.wire.iter().rev().find(|d| d.bytes == bytes).map(|d| (d.from, d.inc, d.tag)).unwrap_or((0, 0, "forged"))
+            self.wire.iter().rev().find(|d| d.bytes == bytes).map(|d| (d.from, d.inc, d.tag, tport(&d.to))).unwrap_or((0, 0, "forged", 0))
         } else {
-            (0, 0, "forged")
+            (0, 0, "forged", 0)
         };
-        self.queue.push(InFlight { due, seq: self.seq, src, to: to as u16 + 1, id: 0, bytes, orig });
+        self.queue.push(InFlight { due, seq: self.seq, src, to: to as u16 + 1, id: 0, bytes, orig: (orig.0, orig.1, orig.2), odst: orig.3 });
     }
 
     /// a verbatim copy of a datagram a node really sent (duplicating network / replay), delivered at `due` with source `src`
     pub fn inject_copy(&mut self, to: usize, src: SocketAddr, d: &Dgram, due: Time) {
         self.seq += 1;
-        self.queue.push(InFlight { due, seq: self.seq, src, to: to as u16 + 1, id: 0, bytes: d.bytes.clone(), orig: (d.from, d.inc, d.tag) });
+        self.queue.push(InFlight { due, seq: self.seq, src, to: to as u16 + 1, id: 0, bytes: d.bytes.clone(), orig: (d.from, d.inc, d.tag), odst: tport(&d.to) });
     }
 
     /// immediate presentation of a datagram to node `to` (bypasses the queue); returns what the node did
     pub fn present(&mut self, to: usize, src: SocketAddr, bytes: &[u8]) -> CallResult {
         let orig = if self.trace.is_some() {
-            self.wire.iter().rev().find(|d| d.bytes == bytes).map(|d| (d.from, d.inc, d.tag)).unwrap_or((0, 0, "forged"))
+            self.wire.iter().rev().find(|d| d.bytes == bytes).map(|d| (d.from, d.inc, d.tag, tport(&d.to))).unwrap_or((0, 0, "forged", 0))
         } else {
-            (0, 0, "forged")
+            (0, 0, "forged", 0)
         };
-        self.present_from(to, src, bytes, orig, 0)
+        self.present_from(to, src, bytes, (orig.0, orig.1, orig.2), 0, orig.3)
     }
 
-    pub fn present_from(&mut self, to: usize, src: SocketAddr, bytes: &[u8], orig: (u16, u32, &'static str), id: u64) -> CallResult {
+    pub fn present_from(&mut self, to: usize, src: SocketAddr, bytes: &[u8], orig: (u16, u32, &'static str), id: u64, odst: u32) -> CallResult {
         let mut res = CallResult::default();
         let n = &mut self.nodes[to];
         if !n.node.verif_socket().put_inbound(src, bytes.to_vec()) {
@@ -549,7 +551,7 @@ impl<P: Protocol> Sim<P> {
         self.drain(to, &mut res);
         if self.trace.is_some() {
             let first = bytes.first().map(|b| *b as i64).unwrap_or(-1);
-            self.trace_call("recv", to, &res, json!({"src": port_of(&src), "first": first, "len": bytes.len(), "id": id, "orig": [orig.0, orig.1], "tag": orig.2}));
+            self.trace_call("recv", to, &res, json!({"src": port_of(&src), "first": first, "len": bytes.len(), "id": id, "orig": [orig.0, orig.1], "tag": orig.2, "odst": odst}));
         }
         res
     }
@@ -651,7 +653,7 @@ impl<P: Protocol> Sim<P> {
             }
             let m = self.queue.swap_remove(k);
             let info = InFlightInfo { id: m.id, src: m.src, to: m.to, len: m.bytes.len(), first: m.bytes.first().copied(), head: if m.bytes.len() >= 8 { Some(m.bytes[..8].to_vec()) } else { None } };
-            let res = self.present_from((m.to - 1) as usize, m.src, &m.bytes, m.orig, m.id);
+            let res = self.present_from((m.to - 1) as usize, m.src, &m.bytes, m.orig, m.id, m.odst);
             out.push((info, res));
         }
         out
